@@ -319,8 +319,14 @@ func CustomCase(r *rand.Rand, name string, o CustomOpts) *Case {
 					fmt.Fprintf(&funcsLocal, "func %s(v int) (string, error) {\n\tif err := vref.Fail(int64(v)); err != nil {\n\t\treturn \"\", err\n\t}\n\treturn fmt.Sprintf(\"%s:%%d\", v), nil\n}\n\n", fn, fn)
 					fallible = true
 					mname := fmt.Sprintf("MUE%d", i)
-					declared = append(declared, &Method{Name: mname, Params: []Param{{Name: "source", T: Named(sid), Role: "source"}}, Result: Named(tid), HasErr: true,
-						Spec: &vref.MethodSpec{Name: mname, Roles: []string{"source"}, HasErr: true}})
+					if r.Intn(2) == 0 {
+						// no declared method: the field position converts the pair inline
+						mname = ""
+					}
+					if mname != "" {
+						declared = append(declared, &Method{Name: mname, Params: []Param{{Name: "source", T: Named(sid), Role: "source"}}, Result: Named(tid), HasErr: true,
+							Spec: &vref.MethodSpec{Name: mname, Roles: []string{"source"}, HasErr: true}})
+					}
 				} else {
 					fmt.Fprintf(&funcsLocal, "func %s(v int) string { return fmt.Sprintf(\"%s:%%d\", v) }\n\n", fn, fn)
 				}
